@@ -44,6 +44,10 @@ Clauses(e) ==
                IF e.cls = "Periodogram" THEN Small(e.same_dev, 100)
                ELSE IF e.cls = "pcorrelogram" THEN Small(e.fold_dev, 100)
                ELSE Small(e.double_dev, 100)>> }
+    ELSE IF e.ev = "classfn" THEN
+        \* complex data: the class holds exactly the functional estimate, bin k at entry k
+        { <<"no-exception", ~e.raised>>,
+          <<"class-stores-the-functional-estimate-on-its-axis", e.raised \/ Small(e.dev, 100)>> }
     ELSE { <<"unknown-event", FALSE>> }
 
 VARIABLES l, fails
